@@ -23,7 +23,9 @@ Is(e) == l <= Len(Rec) /\ Rec[l].ev = e /\ l' = l + 1
 Expected(e) == IF e.proof_same /\ e.stmt_same /\ e.key_same THEN "ok" ELSE "err"
 
 \* The plan the specification demands for a layout.
-ElemMuts(kind) == IF kind = "point" THEN {"other", "invalid", "signflip"}
+\* ("torsion": the same point plus a point of cofactor order - other bytes, which only a decoder that checks membership of
+\* the prime-order group refuses: the pairing equation cannot tell it from the original)
+ElemMuts(kind) == IF kind = "point" THEN {"other", "invalid", "signflip", "torsion"}
                   ELSE {"other", "noncanonical"}
 Plan(r) ==
   { <<"identity">> }
